@@ -49,7 +49,7 @@ def config_template(output_dir_relative_to_config: bool = False) -> dict:
             "include_undocumented_option": bool,
             "auto_exclude_directories_without_cmake": bool,
             "kwargs_doc_trigger_string": confuse.Optional(confuse.String(), default=":keyword"),
-            "exclude_filters": confuse.Optional(list, default=()),
+            "exclude_filters": confuse.Optional(confuse.Sequence(confuse.String()), default=()),
             "function_parameter_name_strip_regex": confuse.Optional(confuse.String(), default=""),
             "macro_parameter_name_strip_regex": confuse.Optional(confuse.String(), default=""),
             "member_parameter_name_strip_regex": confuse.Optional(confuse.String(), default=""),
